@@ -142,9 +142,11 @@ func prfMain(args []string) int {
 			{"pruned", repo2, a2, true, 2, true},
 		}
 		for _, pl := range places {
-			for _, form := range []string{"header", "hash"} {
+			// forms: the header, the block hash only, or both (as the block downloader emits them); with both, an
+			// altered header next to the hash of the known header must not verify - the merkle root is the header's
+			for _, form := range []string{"header", "hash", "both"} {
 				for _, hdrCorrupt := range []bool{false, true} {
-					if hdrCorrupt && (c.Kind != "none" || form != "header") {
+					if hdrCorrupt && (c.Kind != "none" || form == "hash") {
 						continue
 					}
 					txid := ids[c.Pos]
@@ -166,10 +168,15 @@ func prfMain(args []string) int {
 					if hdrCorrupt {
 						hdr.Timestamp++ // a single altered header field: another (unknown) header
 					}
-					if form == "header" {
+					switch form {
+					case "header":
 						p.BlockHeader = &hdr
-					} else {
+					case "hash":
 						h := *hdr.BlockHash()
+						p.BlockHash = &h
+					default:
+						p.BlockHeader = &hdr
+						h := *pl.hdr.BlockHash() // the hash of the unaltered header
 						p.BlockHash = &h
 					}
 					var height int
@@ -202,7 +209,7 @@ func prfMain(args []string) int {
 					}
 					if msg != "" && len(divs) < 50 {
 						if hdrCorrupt {
-							form = "header(altered)"
+							form += "(header altered)"
 						}
 						divs = append(divs, prfDiv{Case: c, Place: pl.name, Form: form, Msg: msg})
 					}
